@@ -30,7 +30,8 @@ def run(ck, progs):
                      "(thread count going up, 0 going down)")
     ck.rule("C17.7", "the barrier body interpreted one arrival at a time over 10 consecutive uses (1, 2, 3, 5, 8 threads in lock step): exactly one "
                      "leader per use, an arrival waits at every counter value before the last arrival and passes at the last; a counter whose "
-                     "rest value grows is also taken across 2^32")
+                     "rest value grows is also taken across 2^32; a barrier that also stores to its counters after the spin is replayed under the "
+                     "schedule `a released thread arrives in the next use, the store lands, the rest arrive` (a lost arrival = not reusable)")
     for cfg, P in progs.items():
         _run(ck, P, cfg)
         _sequential_uses(ck, P, cfg)
@@ -362,6 +363,12 @@ def _sequential_uses(ck, P, cfg):
     rmw_keys = {X.show(X.strip(a.children[0])) for a in ats if Q.atomic_kind(a) == "rmw"}
     other = [a for a in ats if Q.atomic_kind(a) in ("store", "other") or X.show(X.strip(a.children[0])) not in rmw_keys]
     shared_plain = [n for n in f.walk() if n.k == "DeclRefExpr" and n.d.get("sc") in ("file_static", "global", "extern") and X.is_write_target(n)]
+    only_counter_stores = bool(other) and all(Q.atomic_kind(a) == "store" for a in other)
+    if rmw_keys and only_counter_stores and not shared_plain:
+        # a barrier that also *stores* to its counters (recycling one for a later use): decided by _reset_hazard, which looks for one
+        # concrete schedule in which such a store overwrites an arrival of the next use; anything it cannot follow stays inconclusive
+        if _reset_hazard(ck, P, cfg, f, pname, inst):
+            return
     if not rmw_keys or other or shared_plain:
         ck.inconclusive("C17.7", inst, f.where, "the barrier shares state besides its arrival counters (%s): not the kind of algorithm this interpretation models" % (
             X.show(other[0])[:50] if other else (shared_plain[0].name if shared_plain else "no arrival RMW")), cfg)
@@ -492,3 +499,103 @@ def _sequential_uses(ck, P, cfg):
         ck.violated("C17.7", inst, f.where, bad, cfg)
     else:
         ck.holds("C17.7", inst, f.where, "%d uses interpreted (1, 2, 3, 5, 8 threads in lock step): one leader per use, waiting at every intermediate counter value, passing at the final one" % n_uses, cfg)
+
+
+def _reset_hazard(ck, P, cfg, f, pname, inst):
+    """A counter store placed after the last spin of a use is not ordered before the arrivals that threads already released make in
+    the next use.  If it targets the counter those arrivals use, the schedule `B released, B arrives in use k+1, A stores, the others
+    arrive` is replayed on the interpreted body: when nobody can then pass use k+1, an arrival was lost and the barrier is not reusable.
+    Returns True when it reported (violated); False leaves the verdict to the caller (inconclusive)."""
+    from .. import interp
+
+    def call(phase, cells, T, load_value, log, apply_stores):
+        cells = dict(cells)
+
+        def atomic(ip, e, st):
+            kind = Q.atomic_kind(e)
+            pe = X.strip(e.children[0])
+            idx = st["env"].get(pe.name) if pe.k == "DeclRefExpr" else ip.rv(e.children[0], st)
+            if idx is None:
+                log.append(("?",))
+                return None
+            if kind == "load":
+                log.append(("load", idx))
+                return load_value
+            if kind == "store":
+                val = ip.rv(e.children[1], st)
+                log.append(("store", idx, val))
+                if apply_stores and val is not None:
+                    cells[idx] = val & M32
+                return 0
+            if kind == "rmw":
+                arg = ip.rv(e.children[1], st)
+                old = cells.get(idx, 0)
+                new = None if arg is None else {"add": old + arg, "sub": old - arg, "or": old | arg, "and": old & arg, "xor": old ^ arg}.get(Q.RMW_OPS[e.aop])
+                if new is None:
+                    log.append(("?",))
+                    return None
+                cells[idx] = new & M32
+                log.append(("rmw", idx))
+                return old
+            log.append(("?",))
+            return None
+        env = {pname: phase, "global_config.n_threads": T}
+        for n in f.walk():
+            if n.k == "VarDecl" and n.sc == "static_local" and not n.tls:
+                env[n.name] = 0
+        outs = interp.Interp(f, max_visits=6, atomic=atomic).run(env)
+        return [o for o in outs if o.how == "exit"], [o for o in outs if o.how == "loop-bound"], cells
+
+    for T in (2, 3):
+        cells, phase = {}, 0
+        for use in range(6):
+            # lock-step arrivals of this use, counter stores held back
+            pre = []
+            for i in range(T):
+                pre.append(dict(cells))
+                lg = []
+                ex, wt, cells = call(phase, cells, T, None, lg, False)
+                if ("?",) in lg or not any(x[0] == "rmw" for x in lg):
+                    return False
+            arr = [x for x in lg if x[0] == "rmw"]
+            v = cells.get(arr[0][1], 0)
+            # every thread once more from its own arrival state, now seeing the final counter value: the path it takes when released
+            late, ph_next = [], None
+            for i in range(T):
+                lg = []
+                ex, wt, _ = call(phase, pre[i], T, v, lg, False)
+                if wt or len(ex) != 1 or ("?",) in lg or ex[0].env.get(pname) is None:
+                    return False
+                ph_next = ex[0].env.get(pname)
+                loads = [j for j, x in enumerate(lg) if x[0] == "load"]
+                for j, x in enumerate(lg):
+                    if x[0] == "store":
+                        if x[2] is None or not loads or j < loads[-1]:
+                            return False            # a store before / between spins: another algorithm
+                        late.append((i, x[1], x[2]))
+            # the counter the next use's arrivals increment
+            lg = []
+            call(ph_next, cells, T, None, lg, False)
+            nxt = [x[1] for x in lg if x[0] == "rmw"]
+            if not nxt or ("?",) in lg:
+                return False
+            for (a, idx, val) in late:
+                if idx != nxt[0]:
+                    continue
+                # schedule: some other released thread B arrives in use k+1, then A's store lands, then everybody else arrives
+                c2 = dict(cells)
+                _, _, c2 = call(ph_next, c2, T, None, [], False)
+                c2[idx] = val & M32
+                for _i in range(T - 1):
+                    _, _, c2 = call(ph_next, c2, T, None, [], False)
+                ex, wt, _ = call(ph_next, c2, T, c2.get(idx, 0), [], False)
+                if wt or not ex:
+                    ck.violated("C17.7", inst, f.where, "with %d threads, in use number %d thread %d stores %d to counter %d after its spin, unordered with the arrivals that "
+                                "released threads already make on that counter in use number %d: replaying `another thread arrives, the store lands, the "
+                                "rest arrive` leaves the counter at %d and nobody can pass (a lost arrival: the barrier is not reusable)" % (
+                                    T, use + 1, a, val, idx, use + 2, c2.get(idx, 0)), cfg)
+                    return True
+            for (a, idx, val) in late:
+                cells[idx] = val & M32
+            phase = ph_next
+    return False
